@@ -184,6 +184,13 @@ fn main() {
         std::process::exit(2);
     }
     exec::install_panic_hook();
+    if args[1] != "c20child" {
+        // fixed interning order of the symbols the simulator's languages use (the interner is
+        // process-global; without this the order would depend on which run thread comes first)
+        for i in 0..12 {
+            let _ = slotted_egraphs::Symbol::from(langs::sym_name(i));
+        }
+    }
     let get = |name: &str| -> Option<String> {
         args.iter().position(|a| a == name).and_then(|i| args.get(i + 1).cloned())
     };
@@ -192,6 +199,7 @@ fn main() {
         "replay" => cmd_replay(&get),
         "emit" => cmd_emit(&get),
         "dbg" => cmd_dbg(&args[2..]),
+        "c20child" => checks::repro::child_main(&get("--file").expect("--file")),
         _ => {
             eprintln!("unknown command");
             2
@@ -449,7 +457,12 @@ fn cmd_run(get: &dyn Fn(&str) -> Option<String>) -> i32 {
     }
     for (id, (n, what)) in &a.known_hits {
         let what: String = what.chars().take(if survey { 420 } else { 2000 }).collect();
-        println!("KNOWN-FINDING: property={} {} [{}; matched {} runs]", prop, what, id, n);
+        if survey {
+            println!("KNOWN-FINDING: property={} {} [{}; matched {} runs]", prop, what, id, n);
+        } else {
+            // the driver prints one KNOWN-FINDING line per listed finding; this is the per-part count
+            println!("known finding {id} matched {n} runs in this part");
+        }
     }
     if det_mismatch.is_some() {
         exit = 2;
